@@ -186,6 +186,33 @@ func genIdent(o *Out, tier string, r *Rng) {
 	// bracketed: the same enumeration inside [ ] (server-name path through net.ParseIP)
 	enumerate(ipAlpha, ipLen-1, func(s string) { sn("[" + s + "]") })
 	o.Stats["exhaustive.ip.maxlen"] = ipLen
+	// the MODEL of net.ParseIP against net.ParseIP itself (16-byte result), second alphabet: a non-hex letter,
+	// and a third one with an upper-case digit and the zone separator
+	ip2Len, ip3Len := 5, 4
+	if thorough {
+		ip2Len, ip3Len = 8, 6
+	}
+	enumerate([]byte("01f:.g"), ip2Len, func(s string) {
+		if o.Do("parseip", hx([]byte(s))) == "err" {
+			o.Count("parseip.rejected")
+		} else {
+			o.Count("parseip.accepted")
+		}
+	})
+	enumerate([]byte("1F:.%"), ip3Len, func(s string) { ip(s) })
+	o.Stats["exhaustive.parseip.maxlen(01f:.g)"] = ip2Len
+	// random long literals: 5-9 groups, optional ellipsis anywhere, optional dotted-quad tail, then at most one edit
+	nl := 600
+	if thorough {
+		nl = 40000
+	}
+	for i := 0; i < nl; i++ {
+		l := r.longIPv6()
+		ip(l)
+		if r.Chance(20) {
+			sn("[" + l + "]")
+		}
+	}
 	o.Stats["exhaustive.servername.maxlen"] = snLen
 
 	// 4. random structured server names, user IDs, room IDs
